@@ -43,6 +43,9 @@ pub fn c13(case_seed: u64, acc: &mut Acc) {
     cfg.max_bound = 2;
     let case = gen::generate(&mut r, &cfg);
     acc.cases += 1;
+    if !preflight_ok(&case, acc) {
+        return;
+    }
     let pr = pp::print(&case.program, &case.layout_opts);
     let opts = RunOpts { max_steps: 80, probe_after_end: 0, stop_at_error: true, seed: Some(1), continue_on: None };
     let base = run_text(&pr.text, &case.signals, &case.script, &opts);
